@@ -71,6 +71,10 @@ SELECTORS = [
     ("r.n <= 2 or not (r.s == 'ab')", lambda v: _cmp("n", lambda x: x <= 2)(v) or not _cmp("s", lambda x: x == "ab")(v)),
     ("r.uid >= 0", _cmp("uid", lambda x: x >= 0)),
     ("r.n == 99", _cmp("n", lambda x: x == 99)),
+    # helpers that look at the record's DECLARED fields (reserved fields are not among them)
+    ("has_field(r, '_source')", lambda v: False),
+    ("has_field(r, 'user') and r.uid >= 0", lambda v: _has(v, "user")),
+    ("Type.string == 'src'", lambda v: any(t == "string" and x == "src" for (t, _), x in zip(v["fields"], v["vals"]))),
 ]
 
 
@@ -993,14 +997,26 @@ def canonical(src_kinds, opt):
     return (tuple(src_kinds), tuple(sorted((k, v) for k, v in opt.items() if v not in (None, False))))
 
 
-def run_one(ctx, ds, src_names, opt, outdir, st, coq_cases, metas, rnd=None):
-    """Run one case against implementation and reference.  Returns a replay object on mismatch, else None."""
+def run_sub(argv):
+    """the command line as a fresh process: python -m flow.record.tools.rdump"""
+    p = subprocess.run([core.PY, "-m", "flow.record.tools.rdump"] + argv, env=core.env_for_repo(), stdout=subprocess.PIPE,
+                       stderr=subprocess.PIPE, timeout=180)
+    rc = p.returncode
+    return dict(rc="exit:2" if rc == 2 else rc, exc=None, stdout=p.stdout, uri=None, selector=None,
+                stderr=p.stderr[-800:].decode("utf-8", "replace"))
+
+
+def run_one(ctx, ds, src_names, opt, outdir, st, coq_cases, metas, rnd=None, sub=False):
+    """Run one case against implementation and reference.  Returns a replay object on mismatch, else None.
+    sub: run the command line as a subprocess (no URI / selector capture)."""
     shutil.rmtree(outdir, ignore_errors=True)
     os.makedirs(outdir)
     argv, writer = build_argv(ds, src_names, opt, outdir)
     sel_views, written = ref_pipeline(ds, src_names, opt)
-    res = run_main(argv)
-    meta = dict(kind="rdump-case", dataset=ds.idx, dataset_seed=ds.seed, sources=list(src_names), opt=opt,
+    res = run_sub(argv) if sub else run_main(argv)
+    if sub and res["rc"] not in (0, "exit:2"):
+        res["exc"] = RuntimeError("exit status %s: %s" % (res["rc"], res["stderr"].strip().splitlines()[-1:] or ""))
+    meta = dict(subprocess=bool(sub), kind="rdump-case", dataset=ds.idx, dataset_seed=ds.seed, sources=list(src_names), opt=opt,
                 argv=[a.replace(str(ctx.work) if ctx is not None else "\0", "{W}") for a in argv],
                 source_kinds=[ds.sources[n]["kind"] for n in src_names])
     problem = None
@@ -1017,7 +1033,8 @@ def run_one(ctx, ds, src_names, opt, outdir, st, coq_cases, metas, rnd=None):
                 if res["selector"] != want:
                     raise Mismatch("the selector handed to record_stream is a %s, expected %s (-n %s)" % (
                         res["selector"], want, "given" if opt.get("no_compile") else "not given"))
-            check_uri(opt, res, writer)
+            if not sub:
+                check_uri(opt, res, writer)
     except Mismatch as e:
         problem = str(e)
     except Exception as e:  # noqa  (parsing the output failed: the output is not what the reference predicts)
@@ -1100,19 +1117,50 @@ def plan(ctx, ds, rnd):
     """(source list, options) pairs for one dataset"""
     quick = ctx.tier == "quick"
     good = ds.good
+    core_good = [n for n in good if n != "goodg" and n not in ds.neutral]
     cases = []
     # identity and each output on the good sources
     cases.append((good, dict()))
     for out in OUTS:
         cases.append((good, dict(out=out)))
         cases.append((good, random_opt(rnd, out)))
+    # compressed sources under neutral file names, at each position among the others, and alone
+    for nn in ds.neutral:
+        cases.append(([nn], dict(out="m:jsonlines")))
+        for pos in range(len(core_good) + 1):
+            srcs = core_good[:pos] + [nn] + core_good[pos:]
+            cases.append((srcs, dict()))
+            cases.append((srcs, dict(out="w:records", skip=rnd.choice([1, 3]), count=rnd.choice([5, None]),
+                                     sel=rnd.randrange(len(SELECTORS)), no_compile=rnd.random() < 0.5)))
+    if ds.neutral:
+        cases.append((ds.neutral, dict(out="w:records", skip=1)))
+    # grouped records followed by plain records of their member types: every option family over that source
+    for srcs in (["goodg"], core_good[:1] + ["goodg"] + core_good[1:2]):
+        for out in OUTS:
+            cases.append((srcs, dict(out=out)))
+        for out in ("w:records", "m:jsonlines", "m:csv", "m:text", "m:line", "w:jsonl"):
+            cases.append((srcs, dict(multi=True, out=out)))
+            cases.append((srcs, dict(multi=True, rsrc="SRC2", sel=rnd.randrange(len(SELECTORS)), no_compile=rnd.random() < 0.5, out=out)))
+            cases.append((srcs, dict(fields="uid,_source,n", out=out)))
+            cases.append((srcs, dict(fields="user,uid", exclude="uid", out=out)))
+            cases.append((srcs, dict(exclude="s,_generated", rcls="top", out=out)))
+            cases.append((srcs, dict(expr=EXPR, rsrc="SRC2", out=out)))
+        for i in range(len(SELECTORS) - 3, len(SELECTORS)):
+            for nc in (False, True):
+                cases.append((srcs, dict(sel=i, no_compile=nc, out=rnd.choice(["w:records", "m:jsonlines", "m:text"]))))
+        cases.append((srcs, dict(list=True)))
+        cases.append((srcs, dict(list=True, exclude="s")))
+        cases.append((srcs, dict(fmt="{uid}|{_source}|{n}", out="m:text")))
+        cases.append((srcs, dict(out="w:records", split=2)))
     # every placement of every fault among the good ones
+    good_all, good = good, core_good
     for f in ds.faults:
         for pos in range(len(good) + 1):
             srcs = good[:pos] + [f] + good[pos:]
             cases.append((srcs, dict(out="w:records")))
             for _ in range(1 if quick else 5):
                 cases.append((srcs, random_opt(rnd)))
+    good = good_all
     # two faults, fault only, same source twice
     for _ in range(4 if quick else 20):
         srcs = list(good)
@@ -1170,7 +1218,7 @@ def plan(ctx, ds, rnd):
     for skip in (0, 2):
         cases.append((good, dict(out="w:records", expr=ABORT_EXPR, abort=True, skip=skip)))
         cases.append((good[::-1], dict(out="w:records", expr=ABORT_EXPR, abort=True, skip=skip)))
-    for _ in range(40 if quick else 200):
+    for _ in range(25 if quick else 200):
         srcs = list(good)
         if rnd.random() < 0.6:
             srcs.insert(rnd.randrange(len(srcs) + 1), rnd.choice(ds.faults))
@@ -1224,12 +1272,16 @@ def nontrivial(ds, srcs, opt):
 def sweep(ctx, coq=True, first_only=True):
     """Run the whole correspondence on the implementation.  Returns (coq_cases, metas, problems, st)."""
     rnd = random.Random(ctx.seed)
-    nds = 5 if ctx.tier == "quick" else 16
+    nds = 4 if ctx.tier == "quick" else 16
     coq_cases, metas, problems = ([] if coq else None), [], []
     st = {}
     outdir = os.path.join(str(ctx.work), "out")
     for i in range(nds):
-        ds = Dataset(ctx.seed, i, ctx.work)
+        try:
+            ds = Dataset(ctx.seed, i, ctx.work)
+        except SourceProblem as e:
+            problems.append(e.args[0])
+            return coq_cases, metas, problems, st
         for srcs, opt in plan(ctx, ds, rnd):
             opt = {k: v for k, v in opt.items() if v is not None}
             ctx.count_case(canonical([ds.sources[n]["kind"] for n in srcs], opt) + (i,), nontrivial=nontrivial(ds, srcs, opt))
@@ -1248,45 +1300,77 @@ def sweep(ctx, coq=True, first_only=True):
     return coq_cases, metas, problems, st
 
 
-def subprocess_cases(ctx, st):
-    """the same command lines through `python -m flow.record.tools.rdump`: real stdout"""
+SUB_CASES = [
+    dict(out="m:text"), dict(out="m:csv", skip=1, count=5, fields="uid,s,n", rsrc="SRC2"), dict(out="m:jsonlines", skip=1),
+    dict(out="m:json", count=5, exclude="s"), dict(out="m:line", fields="uid,_source,n"), dict(out="m:line-verbose", count=7),
+    dict(out="w:records", multi=True), dict(out="m:jsonlines", multi=True, rsrc="SRC2"),
+    dict(out="m:text", sel=len(SELECTORS) - 1), dict(out="w:records", sel=len(SELECTORS) - 3, no_compile=True),
+    dict(out="m:text", fmt="{uid}|{_source}"), dict(list=True),
+]
+
+
+def subprocess_cases(ctx, st, report=True):
+    """command lines through `python -m flow.record.tools.rdump` (fresh process, real stdout): all good sources
+    (grouped records, neutral file names included) with a fault in between, one case per option family.
+    Returns the first failing case (a replay object) or None."""
     rnd = random.Random(ctx.seed + 1)
-    ds = Dataset(ctx.seed, 0, ctx.work)
+    try:
+        ds = Dataset(ctx.seed, 0, ctx.work)
+    except SourceProblem as e:
+        return e.args[0]
     outdir = os.path.join(str(ctx.work), "out")
     n = 0
-    for out in ("m:text", "m:csv", "m:jsonlines", "m:json", "m:line"):
-        srcs = ds.good[:1] + [rnd.choice(ds.faults)] + ds.good[1:]
-        opt = dict(out=out, skip=1, count=5, fields="uid,s,n", rsrc="SRC2")
-        argv, _ = build_argv(ds, srcs, opt, outdir)
-        p = subprocess.run([core.PY, "-m", "flow.record.tools.rdump"] + argv, env=core.env_for_repo(), stdout=subprocess.PIPE,
-                           stderr=subprocess.PIPE, timeout=120)
-        sel_views, written = ref_pipeline(ds, srcs, opt)
-        res = dict(rc=p.returncode, exc=None, stdout=p.stdout, uri=None, selector=None)
-        ctx.count_case(("subprocess", out))
-        n += 1
-        try:
-            check_output(ds, opt, res, outdir, sel_views, written, st)
-        except Exception as e:  # noqa
-            ctx.violation("python -m flow.record.tools.rdump %s: %s" % (" ".join(argv[len(srcs):]), e),
-                          dict(kind="rdump-case", subprocess=True, dataset=0, dataset_seed=ds.seed, sources=srcs, opt=opt,
-                               problem=str(e), stderr=p.stderr[-600:].decode("utf-8", "replace")))
-            return
-    ctx.notes.append("%d stdout cases also run as a subprocess (python -m flow.record.tools.rdump)" % n)
+    for opt in SUB_CASES:
+        for srcs in (ds.good[:1] + [rnd.choice(ds.faults)] + ds.good[1:], ["goodg"]):
+            ctx.count_case(("subprocess", tuple(srcs), tuple(sorted(opt.items()))))
+            n += 1
+            bad = run_one(ctx, ds, srcs, dict(opt), outdir, st, None, None, sub=True)
+            if bad:
+                return bad
+    if report:
+        ctx.notes.append("%d cases also run as a subprocess (python -m flow.record.tools.rdump)" % n)
+    return None
 
 
 def describe(m):
-    return "rdump %s  [sources: %s] -> %s" % (" ".join(a for a in m["argv"][len(m["sources"]):]), ", ".join(m["source_kinds"]), m["problem"])
+    if m.get("kind") == "rdump-source":
+        return "source %s (%s): %s" % (m["file"], m["source_kind"], m["problem"])
+    return "%s %s  [sources: %s] -> %s" % ("python -m flow.record.tools.rdump" if m.get("subprocess") else "rdump",
+                                          " ".join(a for a in m["argv"][len(m["sources"]):]), ", ".join(m["source_kinds"]), m["problem"])
+
+
+def report_problem(ctx, m, st, reason=None):
+    """A case failed in-process.  Runs in one process share the library's caches, so confirm the command line on its own
+    as a subprocess; when it does not fail there, look for one that does and report that one."""
+    pre = (reason + "; failing input: ") if reason else ""
+    extra = dict(reason=reason) if reason else {}
+    if m.get("kind") == "rdump-case" and not m["opt"].get("abort"):
+        try:
+            ds = Dataset(m["dataset_seed"], m["dataset"], ctx.work)
+            again = run_one(ctx, ds, m["sources"], dict(m["opt"]), os.path.join(str(ctx.work), "out"), {}, None, None, sub=True)
+        except Exception as e:  # noqa
+            again = None
+            m["subprocess_confirmation"] = "not run: %r" % (e,)
+        if again:
+            m["subprocess_confirmation"] = "the same command line fails as a subprocess too: " + again["problem"][:300]
+        elif "subprocess_confirmation" not in m:
+            m["subprocess_confirmation"] = "the command line does not fail in a fresh process (state left by earlier runs in the harness process)"
+            other = subprocess_cases(ctx, st, report=False)
+            if other:
+                other["in_process_case"] = dict(argv=m["argv"], problem=m["problem"][:500])
+                ctx.violation(pre + describe(other), dict(extra, **other))
+                return
+    ctx.violation(pre + describe(m), dict(extra, **m))
 
 
 def search(ctx, reason):
     """the proof / translator broke: look for a concrete failing command line on the implementation"""
     try:
-        _, _, problems, _ = sweep(ctx, coq=False, first_only=True)
+        _, _, problems, st = sweep(ctx, coq=False, first_only=True)
     except Exception:  # noqa
         return False
-    kf = core.known_for("C16")
     for m in problems:
-        ctx.violation("%s; failing input: %s" % (reason, describe(m)), dict(reason=reason, **m))
+        report_problem(ctx, m, st, reason)
         return True
     return False
 
@@ -1326,8 +1410,7 @@ def run(ctx):
     coq_cases, metas, problems, st = sweep(ctx, coq=True, first_only=True)
     kf = core.known_for("C16")
     if problems:
-        m = problems[0]
-        ctx.violation(describe(m), m)
+        report_problem(ctx, problems[0], st)
         return
     failing, err = core.eval_bool_cases(ctx, COQ_HEADER, coq_cases, shard_size=120, name="c16")
     if err:
@@ -1343,11 +1426,13 @@ def run(ctx):
         return
     for m in metas[:: max(1, len(metas) // 3)][:3]:
         ctx.sample(dict(argv=m["argv"][len(m["sources"]):], sources=m["source_kinds"]))
-    subprocess_cases(ctx, st)
+    bad = subprocess_cases(ctx, st)
+    if bad:
+        ctx.violation(describe(bad), bad)
 
 
 def replay(obj):
-    if obj.get("kind") != "rdump-case":
+    if obj.get("kind") not in ("rdump-case", "rdump-source"):
         print("replay of kind %s: re-run ./check C16" % obj.get("kind"))
         return 2
     work = core.WORK / ("C16.replay.%d" % os.getpid())
@@ -1359,9 +1444,16 @@ def replay(obj):
     c = _C()
     c.work = work
     try:
-        ds = Dataset(obj["dataset_seed"], obj["dataset"], work)
+        try:
+            ds = Dataset(obj["dataset_seed"], obj["dataset"], work)
+        except SourceProblem as e:
+            print("replay: " + describe(e.args[0]))
+            return 1
+        if obj["kind"] == "rdump-source":
+            print("replay: source %s -> read back as written" % obj.get("file"))
+            return 0
         st = {}
-        bad = run_one(c, ds, obj["sources"], obj["opt"], os.path.join(str(work), "out"), st, None, None)
+        bad = run_one(c, ds, obj["sources"], obj["opt"], os.path.join(str(work), "out"), st, None, None, sub=bool(obj.get("subprocess")))
         if bad:
             print("replay: " + describe(bad))
             return 1
